@@ -90,9 +90,17 @@ func run(c *core.Ctx) error {
 	c.Trust("TLC 1.8.0; the harness' in-memory storage engine with atomic put-if-absent; the gate (a scheduling decision is only taken when every client is blocked or finished)")
 	c.Assume("storage with atomic PutIfNotExists (the S3 fallback in Queue.CommitAt is documented as incorrect in the code, issue #2686, and out of scope); schedules bounded by the preemption budget stated per scenario")
 	if c.Replay != "" {
-		var w jrun.Witness
+		var w struct {
+			jrun.Witness
+			Model   *lakeh.AbsModel `json:"model"`
+			History lakeh.History   `json:"history"`
+		}
 		if _, err := c.ReplayWitness(&w); err != nil {
 			return err
+		}
+		if w.Model != nil {
+			rp := &lakeh.Replayer{C: c, M: w.Model, Ctx: ctx, Warm: true, OnIssue: warmReport(c, w.Model)}
+			return rp.ReplayAll([]lakeh.History{w.History})
 		}
 		_, fails, drift, err := r.Execute(w.Scenario, w.Sched, nil)
 		if err != nil {
@@ -100,7 +108,7 @@ func run(c *core.Ctx) error {
 		}
 		fmt.Printf("replay: drift=%q fails=%v\n", drift, fails)
 		for _, f := range fails {
-			c.Violate(sigOf(f)+":"+w.Scenario.Name, f, w)
+			c.Violate(sigOf(f)+":"+w.Scenario.Name, f, w.Witness)
 		}
 		return nil
 	}
@@ -158,7 +166,58 @@ func run(c *core.Ctx) error {
 	if err := rewriteRaces(c); err != nil {
 		return err
 	}
+	if err := warmHistories(c); err != nil {
+		return err
+	}
 	return randomTraces(c, r)
+}
+
+type warmWitness struct {
+	Model   *lakeh.AbsModel `json:"model"`
+	History lakeh.History   `json:"history"`
+	Issue   lakeh.Issue     `json:"issue"`
+}
+
+func warmReport(c *core.Ctx, m *lakeh.AbsModel) func(h lakeh.History, upto int, is lakeh.Issue) {
+	return func(h lakeh.History, upto int, is lakeh.Issue) {
+		hh := append(lakeh.History(nil), h[:upto]...)
+		switch is.Kind {
+		case lakeh.KUnreadable, lakeh.KContents, lakeh.KFailTrace:
+			c.Violate("replayable:"+is.Kind+":"+hh[len(hh)-1].Op, fmt.Sprintf("%s [one long-lived handle; history: %s]", is.Detail, hh),
+				warmWitness{Model: m, History: hh, Issue: is})
+		default:
+			c.Drift("%s: %s", is.Detail, hh)
+		}
+	}
+}
+
+// warmHistories: "accepted commits stay replayable" for a client that keeps its
+// handle (warm journal and snapshot caches, as the service does).  All histories
+// of LakeAbs.tla over two branches forking at a cached commit, with data and
+// vector operations on both sides (invariant Replayable), are replayed through
+// ONE handle; after every acknowledged or refused operation a fresh process must
+// be able to replay every branch from storage and see the model's contents.
+func warmHistories(c *core.Ctx) error {
+	ctx := context.Background()
+	m := lakeh.WarmModel(c.Quick())
+	hs, res := lakeh.GenHistories(c, m, "", 8)
+	if res == nil {
+		return nil
+	}
+	if c.Quick() {
+		hs = lakeh.Sub(hs, 700, c.Seed)
+	}
+	rp := &lakeh.Replayer{C: c, M: m, Ctx: ctx, Warm: true, OnIssue: warmReport(c, m)}
+	if err := rp.ReplayAll(hs); err != nil {
+		return err
+	}
+	c.Add("traces_validated_against_impl", int64(len(hs)))
+	c.Add("replayed_steps", rp.Steps)
+	c.Logf("%s: TLC %d states (Replayable holds), %d histories replayed through one long-lived handle, %d steps", m.Name, res.Distinct, len(hs), rp.Steps)
+	if len(hs) > 0 {
+		c.Sample(map[string]any{"model": m.Name, "history": hs[len(hs)/2].String()})
+	}
+	return nil
 }
 
 // rewriteRaces: commits whose content depends on the tip they are built on
